@@ -6,4 +6,5 @@ NoOperatingCheck == AllChecks \ {"operating"}
 NoSessionCheck   == AllChecks \ {"session"}
 NoMemberCheck    == AllChecks \ {"member"}
 NoSelfCheck      == AllChecks \ {"self"}
+MaxLog == 90    \* rejected / echoed deliveries are only logged in the first MaxLog steps
 =============================================================================
